@@ -18,6 +18,7 @@ vars == <<st, env, res, hist>>
 
 MC_Own == 5
 MC_OwnP == [p1 |-> 128, p2 |-> 128]
+MC_OwnP2 == [p1 |-> 128, p2 |-> 120]     \* own priority1 and priority2 differ (a field mix-up between the two would show)
 MC_Q0 == [class |-> 248, acc |-> 254, var |-> 65535]
 MC_TP0 == [utc |-> NoUtc, leap |-> 0, tt |-> FALSE, ft |-> FALSE, ptp |-> FALSE, src |-> 160]
 E2E(mo, aml) == [p2p |-> FALSE, mo |-> mo, aml |-> aml, keep |-> 1]
@@ -27,6 +28,8 @@ PCfg_L == << E2E(FALSE, {2, 9}) >>                  \* acceptable master list {2
 PCfg_P == << P2P(FALSE, AnyId) >>
 PCfg_A == << E2E(FALSE, AnyId), E2E(FALSE, AnyId) >>
 PCfg_AP == << E2E(FALSE, AnyId), P2P(FALSE, AnyId) >>
+PCfg_PA == << P2P(FALSE, AnyId), E2E(FALSE, AnyId) >>     \* the port the events go to is the peer-to-peer one
+PCfg_PP == << P2P(FALSE, AnyId), P2P(FALSE, AnyId) >>
 
 Parent == <<2, 1>>
 Other == <<9, 1>>
